@@ -21,7 +21,9 @@ func init() {
 			"Also the base type's codec under its tag option, and the exported BQTimestampCodec/TimeCompatCodec over the time universe. non-trivial = non-zero value",
 		Assumptions: []string{"codecs are driven through the exported Codec interface with pointers obtained from reflect (map values pass the map pointer itself, as Marshal does)"},
 		Work:        c05Work,
-		Post:        func(a *mc.Agg) []string { return needDims(a, "class:V", "class:F", "class:L", "class:S", "class:R", "codec:whole", "codec:base", "codec:exported") },
+		Post: func(a *mc.Agg) []string {
+			return needDims(a, "class:V", "class:F", "class:L", "class:S", "class:R", "codec:whole", "codec:base", "codec:exported")
+		},
 	})
 }
 
